@@ -571,6 +571,27 @@ def refine_droplets(
     return droplets
 
 
+def _normalize_droplet_position(droplet: DiffuseDroplet, grid: GridBase) -> DiffuseDroplet:
+    """Normalize the position of a droplet, e.g., respecting periodic boundaries.
+
+    Args:
+        droplet (:class:`~droplets.droplets.DiffuseDroplet`):
+            The droplet whose position is normalized in-place
+        grid (:class:`~pde.grids.base.GridBase`):
+            The grid defining the geometry
+
+    Returns:
+        :class:`~droplets.droplets.DiffuseDroplet`: The droplet with normalized position
+    """
+    coords = grid.transform(droplet.position, "cartesian", "grid")
+    position = grid.transform(grid.normalize_point(coords), "grid", "cartesian")
+    # coordinates that are fixed by the symmetry of the grid are left untouched
+    fixed = [i for i in grid.coordinate_constraints if i < grid.dim]
+    position[fixed] = droplet.position[fixed]
+    droplet.position = position
+    return droplet
+
+
 def refine_droplet(
     phase_field: ScalarField,
     droplet: DiffuseDroplet,
@@ -638,7 +659,7 @@ def refine_droplet(
     if data_mask.size == 0:
         # the droplet is so small that its image does not cover a single support point of
         # the grid (e.g. on strongly anisotropic grids), so there is no data to fit
-        return droplet
+        return _normalize_droplet_position(droplet, phase_field.grid)
 
     # determine the coordinate constraints and only vary the free data points
     data_flat = structured_to_unstructured(droplet.data)  # unstructured data
@@ -700,16 +721,7 @@ def refine_droplet(
         data_flat[free] = result.x
     droplet.data = unstructured_to_structured(data_flat, dtype=dtype)
 
-    # normalize the droplet position
-    grid = phase_field.grid
-    coords = grid.transform(droplet.position, "cartesian", "grid")
-    position = grid.transform(grid.normalize_point(coords), "grid", "cartesian")
-    # coordinates that are fixed by the symmetry of the grid are left untouched
-    fixed = [i for i in grid.coordinate_constraints if i < grid.dim]
-    position[fixed] = droplet.position[fixed]
-    droplet.position = position
-
-    return droplet
+    return _normalize_droplet_position(droplet, phase_field.grid)
 
 
 def get_structure_factor(
